@@ -120,8 +120,16 @@ func gen16(seed int64, tier string) []drv.Case {
 				ops = append(ops, op{Op: "putx", Key: k, Val: fmt.Sprintf("v%d-%d", i, j)})
 			case x < 9:
 				ops = append(ops, op{Op: "put", Key: k, Val: fmt.Sprintf("w%d-%d", i, j)})
-			case x < 13:
+			case x < 12:
 				ops = append(ops, op{Op: "delete", Key: k})
+			case x < 13:
+				// delete of a name that is no key: a directory-like prefix of existing keys, a key with a suffix, a missing
+				// sibling (never a name below an existing key: a file system cannot hold both, see the key-universe rule) — a no-op for an object store, whatever it returns
+				if i := strings.LastIndex(k, "/"); i > 0 && r.Intn(3) > 0 {
+					ops = append(ops, op{Op: "delete", Key: k[:i]})
+				} else {
+					ops = append(ops, op{Op: "delete", Key: []string{k + "x", "nope-" + k}[r.Intn(2)]})
+				}
 			case x < 14:
 				ops = append(ops, op{Op: "get", Key: k})
 			case x < 15:
